@@ -226,6 +226,9 @@ def main():
             if m:
                 results.setdefault(m.group(1), {})[m.group(2)] = dict(exit=int(m.group(3)), detected=int(m.group(3)) == 1, reported=m.group(4).strip())
     seeds = dict(SEEDS)
+    for sid in ('c04', 'c02-2', 'c04-3', 'c02-3'):
+        if sid in seeds:
+            seeds[sid] = dict(seeds[sid], note='patch.diff is the change ported by hand onto the loop as rewritten by fix 95bccf1 (pairs re-unified in variable-id order); the agent\'s original is patch.orig.diff; re-confirmed after porting')
     for sid in sorted(os.listdir(ROOT)):
         if os.path.isdir(os.path.join(ROOT, sid)) and sid not in seeds and re.match(r'c\d+[a-e]$', sid):
             seeds[sid] = from_notes(sid)
